@@ -23,6 +23,9 @@ def gen_area(r, name, max_extent=7):
     if r.random() < 0.2:
         return [[-6, 0], [-3, 3]]
     vh, vw = r.randint(1, max_extent), r.randint(1, max_extent)
+    if r.random() < 0.03:
+        # size knob: extents of the form 2^k - 1 (cell-corner counts that are powers of two), a few hundred rays at most
+        vh, vw = r.choice([(15, 15), (7, 31), (31, 7), (3, 63), (63, 3), (7, 15), (15, 7), (3, 31), (31, 3), (1, 127), (127, 1)])
     if name == 'partially_occluded':
         ymax = 0
     elif name == 'fully_transparent' and r.random() < 0.3:
